@@ -6,8 +6,8 @@
    Layer B (go-ds-crdt v0.1.21 set.go / crdt.go as written): `merge` over ALL lists of deltas and ALL delivery
    orders (permutations); the write path of one replica over ALL histories and commit outcomes.
    Layer C (PutHook/DeleteHook -> PinTracker.Track/Untrack): `tracker_call`. *)
-From V Require Import Base.Common Model.C02_Batch Model.C02_BatchTime Model.C02_Set Model.C02_Net Model.C02_Check
-  Proofs.C02_Batch Proofs.C02_BatchTime Proofs.C02_Set Proofs.C02_Net Proofs.C02_Local Proofs.C02_Check.
+From V Require Import Base.Common Model.C02_Batch Model.C02_BatchTime Model.C02_BatchQueue Model.C02_Set Model.C02_Net Model.C02_Check
+  Proofs.C02_Batch Proofs.C02_BatchTime Proofs.C02_BatchQueue Proofs.C02_Set Proofs.C02_Net Proofs.C02_Local Proofs.C02_Check.
 From Coq Require Import Permutation.
 Open Scope N_scope.
 
@@ -176,6 +176,25 @@ Theorem batch_age_bound_fails_when_rearmed_on_every_item :
 Proof. exact every_item_breaks_bound. Qed.
 Print Assumptions batch_age_bound_fails_when_rearmed_on_every_item.
 
+(* the age limit counted from ACCEPTANCE (LogPin/LogUnpin returned nil): the observer of Model/C02_BatchQueue.v remembers when
+   every operation was accepted. In every schedule that is timely for the runtime (lf, lw) and for the worker (an operation
+   waiting at the select is taken within lt, a size commit lasts at most lc): an operation still in the queue was accepted
+   at most qcap * (lt + lc) ago, and one in the pending batch at most qcap * (lt + lc) + max_age + lf + lw ago (after a
+   failed age-limit commit of its batch: max_age + lf + lw from that failure). `accept_to_commit_limit` is the limit the
+   monitor of H1 applies to the measured (accepted, in effect) instants. *)
+Theorem batch_accept_to_commit_bound (A : Type) qcap maxsize s28 age lf lw lt lc (tes : list (cev A)) :
+  let c := mk_tcfg (mk_bcfg qcap maxsize true s28) age false in
+  timely_all lf lw lt lc c (tinit, qinit) tes = true ->
+  let sq := qrun c tes in
+  (forall a, In a (qtimes (snd sq)) -> now (ti (fst sq)) <= a + queue_wait_limit c lt lc) /\
+  (forall a, In a (patimes (snd sq)) ->
+     match rearm (ti (fst sq)) with
+     | None => now (ti (fst sq)) <= a + accept_to_commit_limit c lf lw lt lc
+     | Some r => now (ti (fst sq)) <= r + age + lf + lw
+     end).
+Proof. exact (accept_bound lf lw lt lc (mk_tcfg (mk_bcfg qcap maxsize true s28) age false) eq_refl eq_refl tes). Qed.
+Print Assumptions batch_accept_to_commit_bound.
+
 (* ------------------------------------------------------------------ layer B: the replicated set *)
 
 (* any two delivery orders of the same deltas: same members *)
@@ -240,6 +259,25 @@ Theorem crdt_mutual_trust_same_signers (pol : peer -> tpolicy) (pub : list sdelt
   forall d, In d pub -> trusts pol x (sd_signer d) = trusts pol y (sd_signer d).
 Proof. exact (mutual_trust_agree pol pub x y). Qed.
 Print Assumptions crdt_mutual_trust_same_signers.
+
+(* which updates arrive at all: gossipsub forwards a message only after the forwarder's own validator accepted it, so an
+   update travels along links whose intermediate peers all trust its signer; whatever reaches a peer is trusted by it *)
+Theorem crdt_deliverable_needs_trust (n : nat) (pol : peer -> tpolicy) (links : list link) (s x : peer) :
+  deliverable n pol links s x = true -> trusts pol x s = true.
+Proof. exact (deliverable_needs_trust n pol links s x). Qed.
+Print Assumptions crdt_deliverable_needs_trust.
+
+(* two peers that the same published updates can reach ("have exchanged all updates") hold the same members, whatever the
+   order and the forwarder of each arrival: the clause H3 checks between every comparable pair *)
+Theorem crdt_reachable_peers_converge (n : nat) (pol : peer -> tpolicy) (links : list link) (pub : list sdelta)
+        (x y : peer) (ax ay : list arrival) (k : key) :
+  Forall wf_delta (map sd_delta pub) ->
+  (forall d, In d pub -> deliverable n pol links (sd_signer d) x = deliverable n pol links (sd_signer d) y) ->
+  Permutation (map snd ax) (filter (fun d => deliverable n pol links (sd_signer d) x) pub) ->
+  Permutation (map snd ay) (filter (fun d => deliverable n pol links (sd_signer d) y) pub) ->
+  present (pinset_of pol x ax) k = present (pinset_of pol y ay) k.
+Proof. exact (reachable_peers_converge n pol links pub x y ax ay k). Qed.
+Print Assumptions crdt_reachable_peers_converge.
 
 (* ------------------------------------------------------------------ hooks (layer C) *)
 
@@ -318,3 +356,13 @@ Proof. exact line_example. Qed.
 Example batch_empty_batch_example :
   let s := brun (mk_bcfg 10 3 true true) s28_schedule in committed s = [] /\ t_chan (tm s) = false /\ tlog s = [(1, false)].
 Proof. exact no_empty_commit_after_fix. Qed.
+Example relay_must_trust_signer_example :
+  trusts line_pol_b 1 3 = true /\ deliverable 3 line_pol_b [(1, 2); (2, 3)] 3 1 = false /\
+  deliverable 3 line_pol_b [(1, 2); (2, 3)] 1 3 = true /\ deliverable 3 line_pol [(1, 2); (2, 3)] 3 1 = true.
+Proof. exact relay_must_trust_signer. Qed.
+Example batch_burst_example :
+  timely_all 1 1 2 3 burst_cfg (tinit, qinit) burst = true /\
+  let sq := qrun burst_cfg burst in
+  committed (core (fst sq)) = [[1; 2]; [3]] /\ now (ti (fst sq)) = 20 /\
+  queue_wait_limit burst_cfg 2 3 = 15 /\ accept_to_commit_limit burst_cfg 1 1 2 3 = 27.
+Proof. exact burst_example. Qed.
